@@ -218,4 +218,219 @@ theorem good_switch (d : Node) (cs : TL) (hd : Bool) (hk : d.kind = .switch hd) 
       cases c <;> simp
       split <;> (try split) <;> simp_all
 
+/-! ### SequenceAction -/
+
+def dropTL : TL → Nat → TL
+  | cs, 0 => cs
+  | .nil, _ + 1 => .nil
+  | .cons _ ts, i + 1 => dropTL ts i
+
+theorem dropTL_get : ∀ (cs : TL) (j : Nat) (c : T), cs.get? j = some c → dropTL cs j = .cons c (dropTL cs (j + 1))
+  | .nil, _, _, h => by simp [TL.get?] at h
+  | .cons t ts, 0, c, h => by
+    simp only [TL.get?, Option.some.injEq] at h; subst h
+    cases ts <;> simp [dropTL]
+  | .cons t ts, j + 1, c, h => by
+    simp only [TL.get?] at h
+    simpa [dropTL] using dropTL_get ts j c h
+
+theorem dropTL_ge : ∀ (cs : TL) (j : Nat), cs.length ≤ j → dropTL cs j = .nil
+  | .nil, 0, _ => rfl
+  | .nil, _ + 1, _ => rfl
+  | .cons t ts, 0, h => by simp [TL.length] at h
+  | .cons t ts, j + 1, h => by simp only [TL.length] at h; simpa [dropTL] using dropTL_ge ts j (by omega)
+
+theorem dropTL_lt_ne : ∀ (cs : TL) (j : Nat), j < cs.length → ∃ t ts, dropTL cs j = .cons t ts := by
+  intro cs j h
+  obtain ⟨c, hc⟩ := get_of_lt cs j h
+  exact ⟨c, _, dropTL_get cs j c hc⟩
+
+theorem good_seq (d : Node) (cs : TL) (m : Mode3) (hk : d.kind = .seq m) (hc : cleanNode d = true) (htmo : d.tmo = none)
+    (hcl : CleanL cs = true) (hgoodc : ∀ j c, cs.get? j = some c → Good c) : Good (.node d cs) := by
+  have hser : d.isSerial = true := serial_of_kind d (by simp [Node.isLeaf, Node.isPar, hk])
+  obtain ⟨c1, c2, c3, c4, c5, c6, c7, c8, c9, c10, c11⟩ := clean_fields d hc
+  refine good_serial d cs hc hser htmo hcl hgoodc
+    (fun d' nx F => d'.kind = .seq m ∧
+      ((∃ onFail, nx = .start d'.index [] onFail ∧ d'.index < cs.length ∧ ∀ k, d'.index ≤ k → k < cs.length → k ∈ F) ∨ ∃ s w, nx = .finish s w))
+    (fun _ nx => match nx with | .finish s w => some (s, w) | .start i _ _ => evalSeq m (dropTL cs i) (true, 0))
+    (fun _ nx => match nx with | .finish _ _ => [] | .start i _ _ => visitSeq m (dropTL cs i))
+    ⟨?_, ?_, ?_, ?_⟩ ?_ ?_ ?_
+  · intro d' s w F _; exact ⟨rfl, rfl⟩
+  · intro d' j rst onFail F h
+    rcases h.2 with ⟨of, e, hlt, hF⟩ | ⟨s, w, e⟩
+    · cases e; exact ⟨rfl, hF _ (Nat.le_refl _) hlt⟩
+    · cases e
+  · intro d' j onFail F c r h hget her
+    rcases h.2 with ⟨of, e, hlt, hF⟩ | ⟨s, w, e⟩
+    · cases e
+      have hdrop := dropTL_get cs d'.index c hget
+      refine ⟨fun hv => by simp [viaLast, h.1] at hv, fun _ => ?_⟩
+      by_cases hb : ((m == .anySucc && r.1) || (m == .anyFail && !r.1)) = true
+      · have hsn : serialNext d' cs.length d'.index r.1 r.2 = (d', .finish r.1 r.2) := by
+          unfold serialNext; rw [h.1]; simp only [hb, ↓reduceIte]
+        rw [hsn]
+        refine ⟨⟨h.1, Or.inr ⟨_, _, rfl⟩⟩, ?_, ?_⟩
+        · simp only [hdrop, evalSeq, her, hb, ↓reduceIte]
+        · simp only [hdrop, visitSeq, her, hb, ↓reduceIte, List.append_nil]
+      · have hb' : ((m == .anySucc && r.1) || (m == .anyFail && !r.1)) = false := by simpa using hb
+        have hsn : serialNext d' cs.length d'.index r.1 r.2 =
+            ({ d' with index := d'.index + 1 }, seqStartOrFinish { d' with index := d'.index + 1 } cs.length r.1 r.2) := by
+          unfold serialNext; rw [h.1]; simp only [hb', Bool.false_eq_true, ↓reduceIte]
+        rw [hsn]
+        by_cases hn : d'.index + 1 < cs.length
+        · have e2 : seqStartOrFinish { d' with index := d'.index + 1 } cs.length r.1 r.2 = .start (d'.index + 1) [] (some (false, 6)) := by
+            simp [seqStartOrFinish, hn]
+          rw [e2]
+          obtain ⟨t2, ts2, hd2⟩ := dropTL_lt_ne cs (d'.index + 1) hn
+          refine ⟨⟨h.1, Or.inl ⟨_, rfl, hn, fun k hk1 hk2 => by
+            have hk1' : d'.index + 1 ≤ k := hk1
+            exact (List.mem_erase_of_ne (by omega)).2 (hF k (by omega) hk2)⟩⟩, ?_, ?_⟩
+          · simp only [hdrop, evalSeq, her, hb', Bool.false_eq_true, ↓reduceIte, hd2]
+          · simp only [hdrop, visitSeq, her, hb', Bool.false_eq_true, ↓reduceIte]
+        · have e2 : seqStartOrFinish { d' with index := d'.index + 1 } cs.length r.1 r.2 = .finish r.1 r.2 := by
+            simp [seqStartOrFinish, hn]
+          rw [e2]
+          have hd2 := dropTL_ge cs (d'.index + 1) (by omega)
+          refine ⟨⟨h.1, Or.inr ⟨_, _, rfl⟩⟩, ?_, ?_⟩
+          · simp only [hdrop, evalSeq, her, hb', Bool.false_eq_true, ↓reduceIte, hd2]
+          · simp only [hdrop, visitSeq, her, hb', Bool.false_eq_true, ↓reduceIte, hd2, List.append_nil]
+    · cases e
+  · intro d' j onFail F c h hget her
+    rcases h.2 with ⟨of, e, hlt, hF⟩ | ⟨s, w, e⟩
+    · cases e; simp only [dropTL_get cs d'.index c hget, evalSeq, her]
+    · cases e
+  · have hidx : (decNode d cs.length).index = 0 := by simp [decNode, serialStart, hk, c8]
+    refine ⟨by simp [decNode, serialStart, hk], ?_⟩
+    simp only [serialStart, hk, seqStartOrFinish, c8]
+    by_cases hn : 0 < cs.length
+    · simp only [hn, ↓reduceIte]
+      exact Or.inl ⟨_, by rw [hidx], by rw [hidx]; exact hn, fun k _ hk => List.mem_range.2 hk⟩
+    · simp only [hn, ↓reduceIte]; exact Or.inr ⟨_, _, rfl⟩
+  · simp only [serialStart, hk, seqStartOrFinish, c8]
+    rw [eval]; simp only [hk]
+    by_cases hn : 0 < cs.length
+    · simp [hn, dropTL]
+    · have : cs = .nil := by cases cs with | nil => rfl | cons a b => simp [TL.length] at hn
+      subst this; simp [TL.length, evalSeq]
+  · simp only [serialStart, hk, seqStartOrFinish, c8]
+    rw [visit]; simp only [hk]
+    by_cases hn : 0 < cs.length
+    · simp [hn, dropTL]
+    · have : cs = .nil := by cases cs with | nil => rfl | cons a b => simp [TL.length] at hn
+      subst this; simp [TL.length, visitSeq]
+
+/-! ### IfThenAction -/
+
+theorem good_ifThen (d : Node) (cs : TL) (hk : d.kind = .ifThen) (hc : cleanNode d = true) (htmo : d.tmo = none)
+    (hcl : CleanL cs = true) (hgoodc : ∀ j c, cs.get? j = some c → Good c) (heven : cs.length % 2 = 0) : Good (.node d cs) := by
+  have hser : d.isSerial = true := serial_of_kind d (by simp [Node.isLeaf, Node.isPar, hk])
+  obtain ⟨c1, c2, c3, c4, c5, c6, c7, c8, c9, c10, c11⟩ := clean_fields d hc
+  refine good_serial d cs hc hser htmo hcl hgoodc
+    (fun d' nx F => d'.kind = .ifThen ∧
+      ((nx = .start (2 * d'.index) [] none ∧ 2 * d'.index + 1 < cs.length ∧ ∀ k, 2 * d'.index ≤ k → k < cs.length → k ∈ F) ∨
+       (nx = .start (2 * d'.index + 1) [] none ∧ 2 * d'.index + 1 < cs.length ∧ (2 * d'.index + 1) ∈ F) ∨ ∃ s w, nx = .finish s w))
+    (fun _ nx => match nx with
+      | .finish s w => some (s, w)
+      | .start i _ _ => if i % 2 = 0 then evalIfThen (dropTL cs i) else evalAt cs i)
+    (fun _ nx => match nx with
+      | .finish _ _ => []
+      | .start i _ _ => if i % 2 = 0 then visitIfThen (dropTL cs i) else visitAt cs i)
+    ⟨?_, ?_, ?_, ?_⟩ ?_ ?_ ?_
+  · intro d' s w F _; exact ⟨rfl, rfl⟩
+  · intro d' j rst onFail F h
+    rcases h.2 with ⟨e, hlt, hF⟩ | ⟨e, hlt, hF⟩ | ⟨s, w, e⟩
+    · cases e; exact ⟨rfl, hF _ (Nat.le_refl _) (by omega)⟩
+    · cases e; exact ⟨rfl, hF⟩
+    · cases e
+  · intro d' j onFail F c r h hget her
+    have hev := evalAt_get cs j c hget
+    rcases h.2 with ⟨e, hlt, hF⟩ | ⟨e, hlt, hF⟩ | ⟨s, w, e⟩
+    · cases e
+      have hmod : (2 * d'.index) % 2 = 0 := by omega
+      obtain ⟨th, hth⟩ := get_of_lt cs (2 * d'.index + 1) hlt
+      have hdrop : dropTL cs (2 * d'.index) = .cons c (.cons th (dropTL cs (2 * d'.index + 2))) := by
+        rw [dropTL_get cs _ c hget, dropTL_get cs _ th hth]
+      have hevt := evalAt_get cs (2 * d'.index + 1) th hth
+      refine ⟨fun hv => by simp [viaLast, h.1, hmod] at hv, fun _ => ?_⟩
+      by_cases hs : r.1 = true
+      · have hsn : serialNext d' cs.length (2 * d'.index) r.1 r.2 = (d', .start (2 * d'.index + 1) [] none) := by
+          unfold serialNext; rw [h.1]; simp [hs]
+        rw [hsn]
+        have hmod1 : (2 * d'.index + 1) % 2 ≠ 0 := by omega
+        have hr' : eval c = some (true, r.2) := by rw [her]; obtain ⟨a, b⟩ := r; simp at hs; simp [hs]
+        refine ⟨⟨h.1, Or.inr (Or.inl ⟨rfl, hlt, (List.mem_erase_of_ne (show 2 * d'.index + 1 ≠ 2 * d'.index by omega)).2 (hF _ (by omega) hlt)⟩)⟩, ?_, ?_⟩
+        · simp only [hmod, ↓reduceIte, hmod1, hdrop, evalIfThen, hr', hevt.1]
+        · simp only [hmod, ↓reduceIte, hmod1, hdrop, visitIfThen, hr', hevt.2]
+      · have hs' : r.1 = false := by simpa using hs
+        have hr' : eval c = some (false, r.2) := by rw [her]; obtain ⟨a, b⟩ := r; simp at hs'; simp [hs']
+        have hsn : serialNext d' cs.length (2 * d'.index) r.1 r.2 =
+            ({ d' with index := d'.index + 1 }, ifThenDoStart { d' with index := d'.index + 1 } cs.length) := by
+          unfold serialNext; rw [h.1]; simp [hs']
+        rw [hsn]
+        by_cases hn : d'.index + 1 ≥ cs.length / 2
+        · have e2 : ifThenDoStart { d' with index := d'.index + 1 } cs.length = .finish false 10 := by
+            simp [ifThenDoStart, hn]
+          rw [e2]
+          have hd2 := dropTL_ge cs (2 * d'.index + 2) (by omega)
+          refine ⟨⟨h.1, Or.inr (Or.inr ⟨_, _, rfl⟩)⟩, ?_, ?_⟩
+          · simp only [hmod, ↓reduceIte, hdrop, evalIfThen, hr', hd2]
+          · simp only [hmod, ↓reduceIte, hdrop, visitIfThen, hr', hd2, List.append_nil]
+        · have e2 : ifThenDoStart { d' with index := d'.index + 1 } cs.length = .start (2 * (d'.index + 1)) [] none := by
+            simp [ifThenDoStart, hn]
+          rw [e2]
+          have hmod2 : (2 * (d'.index + 1)) % 2 = 0 := by omega
+          have e3 : 2 * (d'.index + 1) = 2 * d'.index + 2 := by omega
+          refine ⟨⟨h.1, Or.inl ⟨rfl, by show 2 * (d'.index + 1) + 1 < cs.length; omega, fun k hk1 hk2 => by
+            have hk1' : 2 * (d'.index + 1) ≤ k := hk1
+            exact (List.mem_erase_of_ne (by omega)).2 (hF k (by omega) hk2)⟩⟩, ?_, ?_⟩
+          · have hm3 : (2 * d'.index + 2) % 2 = 0 := by omega
+            simp only [hmod, ↓reduceIte, hmod2, hdrop, evalIfThen, hr', e3, hm3]
+          · have hm3 : (2 * d'.index + 2) % 2 = 0 := by omega
+            simp only [hmod, ↓reduceIte, hmod2, hdrop, visitIfThen, hr', e3, hm3]
+    · cases e
+      have hmod1 : (2 * d'.index + 1) % 2 ≠ 0 := by omega
+      refine ⟨fun _ => ⟨by simp [hmod1, hev.1, her], by simp [hmod1, hev.2]⟩, fun hv => by simp [viaLast, h.1] at hv⟩
+    · cases e
+  · intro d' j onFail F c h hget her
+    have hev := evalAt_get cs j c hget
+    rcases h.2 with ⟨e, hlt, hF⟩ | ⟨e, hlt, hF⟩ | ⟨s, w, e⟩
+    · cases e
+      have hmod : (2 * d'.index) % 2 = 0 := by omega
+      obtain ⟨th, hth⟩ := get_of_lt cs (2 * d'.index + 1) hlt
+      simp only [hmod, ↓reduceIte, dropTL_get cs _ c hget, dropTL_get cs _ th hth, evalIfThen, her]
+    · cases e
+      have hmod1 : (2 * d'.index + 1) % 2 ≠ 0 := by omega
+      simp [hmod1, hev.1, her]
+    · cases e
+  · have hidx : (decNode d cs.length).index = 0 := by simp [decNode, serialStart, hk]
+    refine ⟨by simp [decNode, serialStart, hk], ?_⟩
+    simp only [serialStart, hk, ifThenDoStart]
+    by_cases hn : 0 ≥ cs.length / 2
+    · simp only [hn, ↓reduceIte]; exact Or.inr (Or.inr ⟨_, _, rfl⟩)
+    · simp only [hn, ↓reduceIte]
+      exact Or.inl ⟨by rw [hidx], by rw [hidx]; omega, fun k _ hk => List.mem_range.2 hk⟩
+  · simp only [serialStart, hk, ifThenDoStart]
+    rw [eval]; simp only [hk]
+    by_cases hn : 0 ≥ cs.length / 2
+    · have : cs = .nil := by
+        cases cs with
+        | nil => rfl
+        | cons a b => cases b with
+          | nil => simp [TL.length] at heven
+          | cons x y => simp [TL.length] at hn; omega
+      subst this; simp [TL.length, evalIfThen]
+    · simp [hn, dropTL]
+  · simp only [serialStart, hk, ifThenDoStart]
+    rw [visit]; simp only [hk]
+    by_cases hn : 0 ≥ cs.length / 2
+    · have : cs = .nil := by
+        cases cs with
+        | nil => rfl
+        | cons a b => cases b with
+          | nil => simp [TL.length] at heven
+          | cons x y => simp [TL.length] at hn; omega
+      subst this; simp [TL.length, visitIfThen]
+    · simp [hn, dropTL]
+
+
 end Tbox.C17
